@@ -189,6 +189,10 @@ def run_C10(ctx, R):
     helper.rule_helper(ctx, R)
     da.rule_array_growth(ctx, R, E.NR, E.BR)
     da.rule_placement(ctx, R, E.NR, E.BR, rules={"B-EXT", "DA-EDGE"})
+    # "within the documented size limits": the 24-bit value/length range is the documented limit; a narrower U24::MAX or
+    # range test rejects valid collections with a scale error
+    with ctx.only({"ACC-PACK"}):
+        acc.rule_accessors(ctx, R)
 
 
 def run_C11(ctx, R):
@@ -306,6 +310,64 @@ PROPS = {
 }
 
 
+ACCESSOR_ADTS = {"Match", "MatchKind", "Output", "Empty", "build_helper::ListItem", "build_helper::VacantIter", "intpack::U24", "intpack::U24nU8",
+                 "charwise::mapper::CodeMapper", "bytewise::State", "charwise::State", "errors::DaachorseError",
+                 "bytewise::iter::U8SliceIterator", "charwise::iter::StrIterator", "charwise::iter::CharWithEndOffsetIterator"}
+
+
+def anchors_of(crates):
+    """functions the rules talk about (never inlined): public API, trait-impl methods, methods of the accessor types and
+    every function resolved as a role on the raw bodies"""
+    ctx0 = engine.Ctx("-", crates)
+    R0 = roles_mod.Roles(ctx0)
+    E0 = Env(ctx0, R0)
+    lib = crates["daachorse"]
+    anchors = {"daachorse": set(), "daacfind": set()}
+    a = anchors["daachorse"]
+    for p, b in lib.bodies.items():
+        j = b.j
+        if j["kind"] != "AssocFn" and j["kind"] != "Fn":
+            continue
+        if j["vis"] == "pub" or j.get("impl_trait") is not None or j.get("impl_adt") in ACCESSOR_ADTS:
+            a.add(p)
+    for v in R0.variants():
+        if not v.ok:
+            continue
+        a.update(v.unsafe_A)
+        for b in list(v.methods.values()) + list(v.next.values()) + [v.build, v.build_with_values, v.new, v.with_values]:
+            if b is not None:
+                a.add(b.path)
+    NR = E0.NR
+    if NR.ok:
+        for b in [NR.add, NR.new, NR.child_id, NR.outputs_pass] + list(NR.fail_passes):
+            if b is not None:
+                a.add(b.path)
+        BR = E0.BR
+        for r in BR.v.values():
+            for nm in ("place", "init", "extend", "find_base", "verify", "sanitise", "nfa_fn"):
+                b = getattr(r, nm, None)
+                if b is not None:
+                    a.add(b.path)
+    cli_c = crates.get("daacfind")
+    if cli_c is not None:
+        c = anchors["daacfind"]
+        for p, b in cli_c.bodies.items():
+            j = b.j
+            if j["kind"] not in ("AssocFn", "Fn"):
+                continue
+            if j.get("impl_trait") is not None or j["name"] in ("main", "find_and_output"):
+                c.add(p)
+    return anchors
+
+
+def normalise(crates):
+    """rules run on the normal form in which non-anchor crate-local helpers are inlined (core.normalise_crate)"""
+    anchors = anchors_of(crates)
+    for name, crate in crates.items():
+        core.normalise_crate(crate, anchors.get(name, set()))
+    return crates
+
+
 def main(argv):
     if not argv:
         print(__doc__)
@@ -334,6 +396,7 @@ def main(argv):
     fn, need_ws, expl = PROPS[prop]
     t0 = time.time()
     crates = core.load_dir(facts_dir) if facts_dir else core.extract(workspace=need_ws)
+    normalise(crates)
     ctx = engine.Ctx(prop, crates, tier)
     R = roles_mod.Roles(ctx)
     fn(ctx, R)
